@@ -39,6 +39,11 @@ func (g *G) claimMore(l string, room int) int {
 	return g.Int(l+"_missing", 1, room)
 }
 
+// Refused is what a generator panics with when a library constructor returns an
+// error for an input the specifications allow; the checks report it as a
+// violation of the property under test (checkRapid), not as a harness failure.
+type Refused struct{ What string }
+
 func New(t *rapid.T, budget int) *G {
 	return &G{T: t, Budget: budget, Labels: map[string]int{}, Avoid: map[string]bool{}}
 }
